@@ -6,7 +6,7 @@ import DirectVerif.Model.Shift
 `narrow`/`cat` the code performs.  Everything else follows from the index form
 `(rollOne s xs)[i] = xs[(i - s) mod n]`.
 -/
-namespace DirectVerif.C01
+namespace DirectVerif.C01L
 open DirectVerif DirectVerif.Shift
 
 /-- `(i - s) mod n` for a representative `k` of `s mod n` -/
@@ -81,4 +81,4 @@ theorem srcIdx_nat (s : Int) (n i : Nat) (hi : i < n) :
     have e : i + n - k.toNat = (i - k.toNat) + n := by omega
     rw [e, Nat.add_mod_right, Nat.mod_eq_of_lt (by omega)]; omega
 
-end DirectVerif.C01
+end DirectVerif.C01L
